@@ -16,16 +16,8 @@ theorem pin_problem_Problem_validate_constraint_anchor : pin_problem_Problem_val
 theorem pin_problem_Problem_only_simple_bounds_anchor : pin_problem_Problem_only_simple_bounds = "db45e87281100d80" := rfl
 /-- `Problem._has_equality_constraints` (problem.py) -/
 theorem pin_problem_Problem_has_equality_constraints_anchor : pin_problem_Problem_has_equality_constraints = "56258a35419a78c5" := rfl
-/-- `Problem.n_constraints` (problem.py) -/
-theorem pin_problem_Problem_n_constraints_anchor : pin_problem_Problem_n_constraints = "f1d7283affcc2213" := rfl
 /-- `Problem.summary` (problem.py) -/
 theorem pin_problem_Problem_summary_anchor : pin_problem_Problem_summary = "bbcdac853c42d5a8" := rfl
-/-- `Problem.objective` (problem.py) -/
-theorem pin_problem_Problem_objective_anchor : pin_problem_Problem_objective = "dccb3b4cfb408f6b" := rfl
-/-- `Problem.sense` (problem.py) -/
-theorem pin_problem_Problem_sense_anchor : pin_problem_Problem_sense = "f8a0868e8e21138d" := rfl
-/-- `Problem.constraints` (problem.py) -/
-theorem pin_problem_Problem_constraints_anchor : pin_problem_Problem_constraints = "c96f1212141cb5da" := rfl
 /-- `_make_constraint` (constraints.py) -/
 theorem pin_constraints_make_constraint_anchor : pin_constraints_make_constraint = "f94a0d73e3549836" := rfl
 /-- `compile_gradient` (core/compiler.py) -/
@@ -42,7 +34,7 @@ theorem pin_autodiff_compile_hessian_anchor : pin_autodiff_compile_hessian = "50
 theorem pin_analysis_estimate_tree_depth_anchor : pin_analysis_estimate_tree_depth = "2165600c9d813bf0" := rfl
 
 /-- every function the model of C14 transcribes (and no translator covers) is the one it was read from -/
-theorem anchors : pin_problem_Problem_validate_expression = "c1cde4a100b85f9c" ∧ pin_problem_Problem_validate_constraint = "86c81ec384d8e567" ∧ pin_problem_Problem_only_simple_bounds = "db45e87281100d80" ∧ pin_problem_Problem_has_equality_constraints = "56258a35419a78c5" ∧ pin_problem_Problem_n_constraints = "f1d7283affcc2213" ∧ pin_problem_Problem_summary = "bbcdac853c42d5a8" ∧ pin_problem_Problem_objective = "dccb3b4cfb408f6b" ∧ pin_problem_Problem_sense = "f8a0868e8e21138d" ∧ pin_problem_Problem_constraints = "c96f1212141cb5da" ∧ pin_constraints_make_constraint = "f94a0d73e3549836" ∧ pin_compiler_compile_gradient = "19d1f93c3bdc18f8" ∧ pin_compiler_compile_vectorized_power_gradient = "abe0e8d8d48a69e7" ∧ pin_compiler_compile_vectorized_unary_gradient = "6e886c928b66b5e2" ∧ pin_autodiff_compile_jacobian = "40a13139a06a856b" ∧ pin_autodiff_compile_hessian = "50982ad58c3902f9" ∧ pin_analysis_estimate_tree_depth = "2165600c9d813bf0" :=
-  ⟨pin_problem_Problem_validate_expression_anchor, pin_problem_Problem_validate_constraint_anchor, pin_problem_Problem_only_simple_bounds_anchor, pin_problem_Problem_has_equality_constraints_anchor, pin_problem_Problem_n_constraints_anchor, pin_problem_Problem_summary_anchor, pin_problem_Problem_objective_anchor, pin_problem_Problem_sense_anchor, pin_problem_Problem_constraints_anchor, pin_constraints_make_constraint_anchor, pin_compiler_compile_gradient_anchor, pin_compiler_compile_vectorized_power_gradient_anchor, pin_compiler_compile_vectorized_unary_gradient_anchor, pin_autodiff_compile_jacobian_anchor, pin_autodiff_compile_hessian_anchor, pin_analysis_estimate_tree_depth_anchor⟩
+theorem anchors : pin_problem_Problem_validate_expression = "c1cde4a100b85f9c" ∧ pin_problem_Problem_validate_constraint = "86c81ec384d8e567" ∧ pin_problem_Problem_only_simple_bounds = "db45e87281100d80" ∧ pin_problem_Problem_has_equality_constraints = "56258a35419a78c5" ∧ pin_problem_Problem_summary = "bbcdac853c42d5a8" ∧ pin_constraints_make_constraint = "f94a0d73e3549836" ∧ pin_compiler_compile_gradient = "19d1f93c3bdc18f8" ∧ pin_compiler_compile_vectorized_power_gradient = "abe0e8d8d48a69e7" ∧ pin_compiler_compile_vectorized_unary_gradient = "6e886c928b66b5e2" ∧ pin_autodiff_compile_jacobian = "40a13139a06a856b" ∧ pin_autodiff_compile_hessian = "50982ad58c3902f9" ∧ pin_analysis_estimate_tree_depth = "2165600c9d813bf0" :=
+  ⟨pin_problem_Problem_validate_expression_anchor, pin_problem_Problem_validate_constraint_anchor, pin_problem_Problem_only_simple_bounds_anchor, pin_problem_Problem_has_equality_constraints_anchor, pin_problem_Problem_summary_anchor, pin_constraints_make_constraint_anchor, pin_compiler_compile_gradient_anchor, pin_compiler_compile_vectorized_power_gradient_anchor, pin_compiler_compile_vectorized_unary_gradient_anchor, pin_autodiff_compile_jacobian_anchor, pin_autodiff_compile_hessian_anchor, pin_analysis_estimate_tree_depth_anchor⟩
 
 end Optyx.Props.PinsC14
